@@ -219,6 +219,17 @@ func runC01(c *Ctx) {
 		c.Stat("allocator_many_chunk_reads")
 		one(x)
 	}
+	// the largest packets: chunk sizes at and just above what fits a 256 KiB message together with the DATA header, against
+	// servers whose transmit limit is raised to 256 KiB, allocator off and on (a page holds one message): every byte still arrives
+	for i, p := range []int{262131, 262132, 262135, 262100} { // (262135 + type, id and length = 262144, the largest message there is)
+		for j, be := range []string{"osalloc", "reqalloc", "os", "req"} {
+			api := []string{"readat", "writeto", "read"}[(i+j)%3]
+			x := &xcase{api: api, p: p, conc: 2, cr: (i+j)%2 == 0, cw: false, fst: j%2 == 0, flen: 2*p + 7 + i, n: 2*p + 7 + i, off: 0, maxtx: 262144,
+				src: "len", backend: be, regular: true, ro: j%2 == 1}
+			c.Stat("largest_packet_transfers")
+			one(x)
+		}
+	}
 	if c.Thorough() {
 		// default packet size, files larger than packet x maxConcurrent
 		for i := 0; i < 40; i++ {
